@@ -542,6 +542,18 @@ class Sym:
                         s3.conds, s3.effects, s3.n = s2.conds, s2.effects, s2.n
                         res.append((s3, (VAL, v2)))
                     return res
+        # a plain immutable static with a constant initialiser (`static ZEROS: [u8; 8] = [0; 8];`) is that value
+        if sb is not None and str(sb.get("kind", "")).startswith("Static") and sb["path"] not in self.stack:
+            import effects as E_
+            if E_.plain_constant_static(self.fx, n["path"]):
+                self.stack.append(sb["path"])
+                try:
+                    outs = self.ev(sb["body"], St(conds=st.conds, effects=st.effects, n=st.n))
+                finally:
+                    self.stack.pop()
+                vals_ = [v2 for s2, (k2, v2) in outs if k2 == VAL]
+                if len(outs) == 1 and len(vals_) == 1 and outs[0][0].effects == st.effects and outs[0][0].conds == st.conds:
+                    return [(st, (VAL, vals_[0]))]
         return [(st, (VAL, ("static", n["path"])))]
 
     def _unary(self, n, st, f):
